@@ -265,3 +265,100 @@ Example C07_process_concrete :
   option_map (fun t => tree_counts t zs) (pused MemoOwnInvalidate (h ++ [Do Self (Measure cb Reference)]) p_fresh)
     = Some (true, [2; 1]%nat).
 Proof. vm_compute. repeat split; reflexivity. Qed.
+
+(* ---------- patch metadata: the Catalog object that created a cache computed number of records,
+   sum of weights, centre and radius of every patch from the records and wrote them to meta.yml;
+   a reopened catalog reads them back.  Centre + radius decide which patch pairs a measurement
+   visits at all (patch linkage: dist(c_i, c_j) <= r_i + r_j + largest counted angle) ---------- *)
+
+(* what the object in use holds after any history: the computed values, or what the writer made of them *)
+Theorem C07_meta_after_history : forall (M : Type) (enc : M -> M) h ms,
+  mobj (mrun h (m_create enc ms)) = if existsb is_reopen h then map enc ms else ms.
+Proof. exact @meta_after_history. Qed.
+Print Assumptions C07_meta_after_history.
+
+(* a writer that reproduces the values (the code: float64 repr through YAML): after ANY history,
+   reopenings included, the object holds what a freshly created catalog holds *)
+Theorem C07_meta_history_independent : forall (M : Type) (enc : M -> M) h ms,
+  (forall m, In m ms -> enc m = m) -> mobj (mrun h (m_create enc ms)) = ms.
+Proof. exact @meta_history_independent. Qed.
+Print Assumptions C07_meta_history_independent.
+
+(* in any space with a distance (symmetric, triangle inequality; counted pairs are at most th apart):
+   radii that contain the records never unlink a patch pair that holds a counted pair ... *)
+Theorem C07_linked_complete : forall (P : Type) (d : P -> P -> Q) (counted : P -> P -> bool) (th : Q),
+  (forall a b, d a b == d b a) -> (forall a b c, d a c <= d a b + d b c) ->
+  (forall p q, counted p q = true -> d p q <= th) ->
+  forall a b pa pb p q, covers d a pa -> covers d b pb -> In p pa -> In q pb -> counted p q = true ->
+  linked d th a b = true.
+Proof. exact @linked_complete. Qed.
+Print Assumptions C07_linked_complete.
+
+(* ... so visiting the linked patch pairs only counts every pair *)
+Theorem C07_count_linked_all : forall (P : Type) (d : P -> P -> Q) (counted : P -> P -> bool) (th : Q),
+  (forall a b, d a b == d b a) -> (forall a b c, d a c <= d a b + d b c) ->
+  (forall p q, counted p q = true -> d p q <= th) ->
+  forall ms c1 c2, covers_all d ms c1 -> covers_all d ms c2 ->
+  count_linked d counted th ms c1 c2 = count_all counted ms c1 c2.
+Proof. exact @count_linked_all. Qed.
+Print Assumptions C07_count_linked_all.
+
+(* the pairs a measurement counts after ANY history are those the creating object counts: (a) for a
+   writer that reproduces the values (no condition on the geometry: also with a patch pair exactly
+   on the linkage limit) ... *)
+Theorem C07_linked_counts_history_independent :
+  forall (P : Type) (d : P -> P -> Q) (counted : P -> P -> bool) (th : Q) enc h ms c1 c2,
+  (forall m, In m ms -> enc m = m) ->
+  count_linked d counted th (mobj (mrun h (m_create enc ms))) c1 c2 = count_linked d counted th ms c1 c2.
+Proof. exact @linked_counts_history_independent. Qed.
+Print Assumptions C07_linked_counts_history_independent.
+
+(* ... (b) for any writer whose values still contain the records *)
+Theorem C07_linked_counts_history_independent_cover :
+  forall (P : Type) (d : P -> P -> Q) (counted : P -> P -> bool) (th : Q),
+  (forall a b, d a b == d b a) -> (forall a b c, d a c <= d a b + d b c) ->
+  (forall p q, counted p q = true -> d p q <= th) ->
+  forall enc h ms c1 c2,
+  covers_all d ms c1 -> covers_all d ms c2 -> covers_all d (map enc ms) c1 -> covers_all d (map enc ms) c2 ->
+  count_linked d counted th (mobj (mrun h (m_create enc ms))) c1 c2 = count_linked d counted th ms c1 c2.
+Proof. exact @linked_counts_history_independent_cover. Qed.
+Print Assumptions C07_linked_counts_history_independent_cover.
+
+(* e.g. (on the line) a writer that keeps the centre and rounds the radius UP to k decimals *)
+Theorem C07_round_up_history_independent : forall k th h ms c1 c2,
+  covers_all dline ms c1 -> covers_all dline ms c2 ->
+  count_linked dline (close_line th) th (mobj (mrun h (m_create (enc_up k) ms))) c1 c2 =
+  count_linked dline (close_line th) th ms c1 c2.
+Proof. exact round_up_history_independent. Qed.
+Print Assumptions C07_round_up_history_independent.
+
+(* not vacuous: a writer that rounds centre and radius to the nearest 1e-8 is refuted by a history
+   with a reopening and a patch pair on the linkage limit (the line with |a - b| is such a space) *)
+Theorem C07_round_nearest_refuted :
+  exists k th ms c1 c2 h,
+    covers_all dline ms c1 /\ covers_all dline ms c2 /\
+    count_linked dline (close_line th) th ms c1 c2 = count_all (close_line th) ms c1 c2 /\
+    count_linked dline (close_line th) th (mobj (mrun h (m_create (enc_round k) ms))) c1 c2 <>
+    count_linked dline (close_line th) th ms c1 c2.
+Proof. exact round_nearest_refuted. Qed.
+Print Assumptions C07_round_nearest_refuted.
+
+Theorem C07_line_is_a_distance :
+  (forall a b, dline a b == dline b a) /\ (forall a b c, dline a c <= dline a b + dline b c) /\
+  (forall th p q, close_line th p q = true -> dline p q <= th).
+Proof. exact (conj dline_sym (conj dline_tri close_line_close)). Qed.
+Print Assumptions C07_line_is_a_distance.
+
+(* non-vacuity: centres 0.1 and 0.125, radii 0.010000004, the facing records 0.004999992 apart =
+   the largest counted separation; builds, two reopenings: the identity writer and the one that
+   rounds up keep all 4 ordered pairs, rounding to the nearest 1e-8 loses the 2 across the patches *)
+Example C07_meta_concrete :
+  let ms := [(1 # 10, 10000004 # 1000000000); (1 # 8, 10000004 # 1000000000)] in
+  let pts := [[(1 # 10) + (10000004 # 1000000000)]; [(1 # 8) - (10000004 # 1000000000)]] in
+  let th := 4999992 # 1000000000 in
+  let h := [All (Build None true); All Reopen; One 1 None false; All Reopen] in
+  mobj (mrun h (m_create (fun m => m) ms)) = ms /\
+  count_linked dline (close_line th) th (mobj (mrun h (m_create (fun m => m) ms))) pts pts = 4%nat /\
+  count_linked dline (close_line th) th (mobj (mrun h (m_create (enc_up 100000000) ms))) pts pts = 4%nat /\
+  count_linked dline (close_line th) th (mobj (mrun h (m_create (enc_round 100000000) ms))) pts pts = 2%nat.
+Proof. vm_compute. repeat split; reflexivity. Qed.
